@@ -20,7 +20,7 @@ mut("c01_equal_push", "C01", E, "piece_type_at_bit(pushing_piece_bit, piece_boar
 mut("c01_cat_pulls_cat", "C01", E, "            Piece::Cat => piece_board.rabbits,\n", "            Piece::Cat => piece_board.rabbits | piece_board.cats,\n", "equal-strength pull offered for cats")
 mut("c01_equal_pull_counts", "C01,C12", E, "                if my_piece > &their_piece {", "                if my_piece >= &their_piece {", "an equal piece displaced into the vacated square counts as a pull")
 mut("c01_frozen_may_push", "C01", E, "                let predator_piece_mask = self.curr_player_non_frozen_pieces(piece_board);\n                let opp_piece_mask = self.opponent_piece_mask(piece_board);\n                let opp_threatened_pieces", "                let predator_piece_mask = self.curr_player_piece_mask(piece_board);\n                let opp_piece_mask = self.opponent_piece_mask(piece_board);\n                let opp_threatened_pieces", "a frozen piece may start a push")
-mut("c01_left_support_wraps", "C01,C02,C11", E, "    let left_supported_pieces = piece_bits & shift_pieces_left!(piece_bits);", "    let left_supported_pieces = piece_bits & shift_left!(piece_bits);", "row mask slip: a piece on the a-file is 'supported' by a friend on the h-file of the rank above")
+mut("c01_left_support_wraps", "C01,C11", E, "    let left_supported_pieces = piece_bits & shift_pieces_left!(piece_bits);", "    let left_supported_pieces = piece_bits & shift_left!(piece_bits);", "row mask slip: a piece on the a-file is 'supported' by a friend on the h-file of the rank above")
 mut("c01_push_on_third_step_only_two", "C01", E, "            if play_phase.push_pull_state.can_push() && play_phase.step() < 3 {", "            if play_phase.push_pull_state.can_push() && play_phase.step() < 2 {", "pushes may not start on the third step")
 # ---- C02
 mut("c02_capture_keeps_colour_bit", "C02,C10", E, "            piece_board_state.p1_pieces &= untrapped_animal_bits;\n", "", "a captured gold piece leaves its colour bit behind")
@@ -47,7 +47,7 @@ mut("c08_history_records_wrong_hash", "C08", E, "            let hash_history = 
 mut("c09_nine_rabbits", "C09,C10", E, "        if (piece_board.rabbits & curr_player_pieces).count_ones() < 8 {", "        if (piece_board.rabbits & curr_player_pieces).count_ones() < 9 {", "a ninth rabbit may be placed")
 mut("c09_silver_dog_quota_shared", "C09", E, "        if (piece_board.dogs & curr_player_pieces).count_ones() < 2 {", "        if (piece_board.dogs & curr_player_pieces).count_ones() < 2 && piece_board.dogs.count_ones() < 3 {", "Silver's second dog is withheld when Gold placed two")
 # ---- C10
-mut("c10_lookup_prefers_rabbit_board", "C10", E, "        if square_bit & self.all_pieces != 0 {\n            Some(piece_type_at_bit(square_bit, self))", "        if square_bit & (self.all_pieces | self.p1_pieces) != 0 {\n            Some(piece_type_at_bit(square_bit, self))", "square lookup also trusts the colour board (together with a stale colour bit this shows a ghost)")
+mut("c10_lookup_prefers_rabbit_board", "silent", E, "        if square_bit & self.all_pieces != 0 {\n            Some(piece_type_at_bit(square_bit, self))", "        if square_bit & (self.all_pieces | self.p1_pieces) != 0 {\n            Some(piece_type_at_bit(square_bit, self))", "square lookup also trusts the colour board (together with a stale colour bit this shows a ghost)")
 # ---- C12
 mut("c12_cats_never_pull", "C12,C01", E, "            && piece_type_at_bit != Piece::Rabbit\n", "            && piece_type_at_bit > Piece::Cat\n", "cats never become possible pullers")
 mut("c12_rabbits_pull", "C12,C19", E, "            && !play_phase.push_pull_state.is_must_complete_push()\n            && piece_type_at_bit != Piece::Rabbit\n", "            && !play_phase.push_pull_state.is_must_complete_push()\n", "a rabbit step is reported as a possible pull")
